@@ -236,6 +236,21 @@ func driveShift(t *Tracer, r Rng, n int) {
 				nh := int64(1) << uint(id.H)
 				dx, dy = r.In(-nh, nh), r.In(-nh, nh)
 			}
+			if w.Abs && id.H <= 25 && r.Chance(0.25) {
+				// land EXACTLY on a lap boundary: index + shift = k * 2^h, k * 2^h - 1, k * 2^h + 1 for k in -4 .. 4 (the sum an
+				// exact negative multiple of the grid width, exactly -1, exactly 2^h), on one axis or both
+				nh := int64(1) << uint(id.H)
+				land := func(i int64) int64 { return r.Pick(0, 0, -1, 1) - i }
+				switch r.Intn(3) {
+				case 0:
+					dx, kx = land(id.X), r.In(-4, 4)
+				case 1:
+					dy, ky = land(id.Y), r.In(-4, 4)
+				default:
+					dx, kx, dy, ky = land(id.X), r.In(-4, 4), land(id.Y), r.In(-4, 4)
+				}
+				_ = nh
+			}
 			if w.Abs && id.H > 25 {
 				kx, ky = 0, 0
 			}
